@@ -283,7 +283,7 @@ Resume(k, s) ==
        /\ ts' = [ts EXCEPT ![k] = "stop"]
        /\ ev' = [ev EXCEPT ![k] = Ev("grp", SIGSTOP)]
        /\ gtok' = [j \in Tasks |-> IF Noise /\ j \in Group(k) /\ Alive(j) /\ Cardinality({i \in Group(k) : Alive(i)}) > 1
-                                     THEN (IF gtok[j] < 3 THEN gtok[j] + 1 ELSE 3) ELSE gtok[j]]
+                                     THEN (IF gtok[j] < 2 THEN gtok[j] + 1 ELSE 2) ELSE gtok[j]]
        /\ nchld' = ChldTo(k) /\ UNCHANGED pend
        /\ UNCHANGED scnt
   ELSE /\ ts' = [ts EXCEPT ![k] = "run"]
